@@ -8,6 +8,7 @@ namespace Ptx
 structure Struct.Interp (M : Struct) (L : LogicData) : Prop where
   vals : M.ValsOK L.T
   frame : M.FrameOK L.frame
+  classical : (L.closesSelfIdNeg = true ∨ L.closesNonExist = true) → M.ClassicalOK
 
 theorem Op1.nonmodal_cases {o : Op1} (h : o.isModal = false) : o = .asrt ∨ o = .neg := by
   cases o <;> simp [Op1.isModal] at h ⊢
